@@ -235,7 +235,7 @@ package objects
 //@ func (sn *Node) UpdateAllocatedResource(delta *resources.Resource)
 //@   props C01
 //@   holds inv(sn)
-//@   requires sepN(sn, delta) && mag2(delta)
+//@   holds sepN(sn, delta) && mag2(delta)
 //@   assigns sn.availableResource, sn.allocatedResource.Resources[*]
 //@   ensures inv(sn)
 //@   ensures[booked] forall t Key :: rv(sn.allocatedResource, t) == old(rv(sn.allocatedResource, t)) + rv(delta, t)
@@ -318,7 +318,7 @@ package objects
 //@   props C01 C06
 //@   mode nopanic=off
 //@   holds inv(sn)
-//@   requires sepN(sn, delta) && mag2(delta)
+//@   holds sepN(sn, delta) && mag2(delta)
 //@   assigns sn.allocations[*], sn.allocatedResource.Resources[*], sn.availableResource.Resources[*], replace.placeholderCreateTime, replace.placeholderUsed
 //@   ensures inv(sn)
 //@   ensures[booked] forall t Key :: rv(sn.allocatedResource, t) == old(rv(sn.allocatedResource, t)) + rv(delta, t) && rv(sn.availableResource, t) == old(rv(sn.availableResource, t)) - rv(delta, t)
